@@ -15,6 +15,7 @@
   lose objects (returning from the loop while children were already moved below OBJ) are the
   explicit result `stuck`; `InsertLemmas` proves it unreachable on laminar trees.
 -/
+import Hw.Base.Basic
 import Hw.Topo.Types
 import Hw.Gen.RestrictConsts
 namespace Hw.Topo.Ins
@@ -79,7 +80,7 @@ def tryMerge (old new : IObj) : Option IObj :=
   else none
 
 /-- number of trailing zero bits (meaningful for non-zero masks) -/
-def tz (m : Nat) : Nat := ((List.range (m.log2 + 1)).find? (fun i => m.testBit i)).getD 0
+def tz (m : Nat) : Nat := (Hw.lowest (fun i => m.testBit i) (m.log2 + 1)).getD 0
 
 /-- `hwloc_bitmap_compare_first(a, b) < 0`: the first bit of `a` is below the first bit of `b`, the empty set
 being greater than everything -/
